@@ -41,9 +41,9 @@ IsDigit(b) == b >= 48 /\ b <= 57
 IsHex(b) == IsDigit(b) \/ (b >= 97 /\ b <= 102) \/ (b >= 65 /\ b <= 70)
 HexVal(b) == IF IsDigit(b) THEN b - 48 ELSE IF b >= 97 THEN b - 87 ELSE b - 55
 AllIn(s, P(_)) == \A j \in 1..Len(s) : P(s[j])
-RECURSIVE IndexFrom(_, _, _)
-\* first position >= k of byte d in s, 0 if none
-IndexFrom(s, d, k) == IF k > Len(s) THEN 0 ELSE IF s[k] = d THEN k ELSE IndexFrom(s, d, k + 1)
+\* first position >= k of byte d in s, 0 if none (set-based: inputs may be thousands of bytes long, no deep recursion)
+IndexFrom(s, d, k) == LET hits == {j \in k..Len(s) : s[j] = d} IN
+                      IF hits = {} THEN 0 ELSE CHOOSE j \in hits : \A h \in hits : j <= h
 RECURSIVE SplitBy(_, _)
 \* split at every occurrence of d; "a..b" gives <<"a", "", "b">>, "" gives <<"">>
 SplitBy(s, d) == LET p == IndexFrom(s, d, 1) IN
